@@ -21,6 +21,12 @@ def method_stubs(P, cls_qual, names, extra=None):
             params = [p for p in f.params if p != 'self']
             env = {k: v for k, v in m.env.items()
                    if k.startswith('self.') or k in ('self',)}
+            recv = getattr(m, 'receiver', None)
+            if isinstance(recv, interp.Sym) and isinstance(
+                    recv.attrs, dict) and not getattr(recv, 'cls', None):
+                # called on a model object that keeps its attributes
+                # itself: that object is `self` of the method
+                env = {'self': recv}
             a = f.node.args
             defaults = dict()
             ps = [p.arg for p in a.posonlyargs + a.args if p.arg != 'self']
@@ -2092,3 +2098,212 @@ def reorder_model(P, R):
                 'adjacent levels swapped, sifted variable at a position '
                 'of least size, never larger')
     return total
+
+
+def traversal_model(P, R):
+    """`BDD.support`, `BDD.descendants` and `BDD.is_essential`
+    interpreted (with the helpers they call) on small managers with
+    shared nodes and complemented edges, for every node in both signs:
+    the support is the set of variables of the nodes below the
+    reference (names, or levels when asked); the descendants of a set of
+    roots are the nodes below them and the terminal, nothing for no
+    roots; a variable is essential exactly when it is in the support,
+    an undeclared name never."""
+    import itertools
+    names = ['a', 'b', 'c']
+    rows = list(itertools.product((False, True), repeat=3))
+
+    def tt(fn):
+        return tuple(bool(fn(*r)) for r in rows)
+    funcs = [tt(lambda a, b, c: a and b),
+             tt(lambda a, b, c: (b if a else c)),
+             tt(lambda a, b, c: b != c),
+             tt(lambda a, b, c: not c),
+             tt(lambda a, b, c: a == (b and c))]
+    stubs = ClassStubs(P, 'dd.bdd.BDD')
+    sup = P.func('dd.bdd.BDD.support')
+    desc = P.func('dd.bdd.BDD.descendants')
+    ess = P.func('dd.bdd.BDD.is_essential')
+    problems = dict()
+    n = 0
+
+    def below(succ, u):
+        seen, todo = set(), [abs(u)]
+        while todo:
+            x = todo.pop()
+            if x in seen:
+                continue
+            seen.add(x)
+            if x != 1:
+                todo += [abs(succ[x][1]), abs(succ[x][2])]
+        return seen
+    try:
+        for order in (['a', 'b', 'c'], ['c', 'a', 'b']):
+            base, ext = _build_manager(order, funcs, range(len(funcs)))
+            succ = base['self._succ']
+            by_level = base['self._level_to_var']
+
+            def env_for(**kw):
+                e = copy.deepcopy({k: v for k, v in base.items()
+                                   if k != 'self'})
+                e['self'] = base['self']
+                e.update(kw)
+                return e
+            refs = [s * u for u in succ for s in (1, -1)]
+            for u in refs:
+                nodes = below(succ, u)
+                want_levels = {succ[x][0] for x in nodes if x != 1}
+                want_names = {by_level[i] for i in want_levels}
+                ps = [p for p in sup.params if p != 'self']
+                for as_levels in (False, True):
+                    n += 1
+                    out, _ = interp.run_function(sup.node, env_for(
+                        **{ps[0]: u, ps[1]: as_levels}), stubs)
+                    want = want_levels if as_levels else want_names
+                    if out != ('return', want):
+                        problems.setdefault((sup, 'child-skipped'), (
+                            f'nodes {succ}: support({u}' + (
+                                ', as_levels=True' if as_levels else '')
+                            + f') gives {out[0]} {out[1]}; the nodes '
+                            f'below the reference are at {want}'))
+                pe = [p for p in ess.params if p != 'self']
+                for var in names + ['zz']:
+                    n += 1
+                    out, _ = interp.run_function(ess.node, env_for(
+                        **{pe[0]: u, pe[1]: var}), stubs)
+                    want = var in want_names
+                    if out[0] != 'return' or bool(out[1]) != want or \
+                            not isinstance(out[1], bool):
+                        problems.setdefault((ess, 'child-skipped'), (
+                            f'nodes {succ}: is_essential({u}, {var!r}) '
+                            f'gives {out[0]} {out[1]}; the support is '
+                            f'{sorted(want_names)}'))
+            pd = [p for p in desc.params if p != 'self']
+            root_sets = [[]] + [[u] for u in refs] + [
+                [refs[2], -refs[-1]], [1, -1], list(ext)]
+            for roots in root_sets:
+                n += 1
+                out, _ = interp.run_function(desc.node, env_for(
+                    **{pd[0]: list(roots)}), stubs)
+                want = set()
+                for u in roots:
+                    want |= below(succ, u) | {1}
+                if out != ('return', want):
+                    problems.setdefault((desc, 'child-skipped'), (
+                        f'nodes {succ}: descendants({roots}) gives '
+                        f'{out[0]} {out[1]}; the nodes below the roots '
+                        f'are {want}'))
+    except interp.Unknown as e:
+        R.undecided('R-VISIT', 'dd.bdd.BDD (traversals)',
+                    'traversal model', str(e))
+        return None
+    for (f, sub), msg in sorted(problems.items(),
+                                key=lambda kv: kv[0][0].qualname):
+        R.violation('R-VISIT', sub, f.qualname, 'v,w', msg,
+                    unit=f.unit.rel, line=f.lineno)
+    if not problems:
+        R.holds('R-VISIT', 'dd.bdd.BDD (traversals)',
+                f'traversal model ({n} calls on 2 managers): support = '
+                'variables of the nodes below the reference, descendants '
+                '= nodes below the roots and the terminal, essential = '
+                'in the support')
+    return n
+
+
+def translator_model(P, R):
+    """`dd._parser._Translator.parse(expression, bdd)` interpreted on the
+    shared translator object in the state an earlier call may have left
+    it in (clean; still bound to another manager after a call that ended
+    with an exception), with a model of the inherited parser that
+    records which manager is bound while the grammar runs.  The grammar
+    must run with the manager of THIS call; after a successful parse the
+    manager is dropped and the LR stacks restarted; the result is the
+    parser's; an exception of the parser is not swallowed."""
+    f = P.func('dd._parser._Translator.parse')
+    prm = [p for p in f.params if p != 'self']
+    if len(prm) != 2:
+        raise AnalysisError(f'{f.qualname}: expected (expression, bdd)')
+    resolver = interp.ModuleEnv(P, 'dd._parser')
+    problems = dict()
+    n = 0
+    for stale in (False, True):
+        for fails in (False, True):
+            n += 1
+            new = interp.Sym('manager of this call')
+            old = interp.Sym('manager of an earlier call')
+            seen = []
+            restarted = []
+            lr = interp.Sym('ply parser', {
+                'statestack': [1], 'symstack': [2]})
+
+            me = interp.Sym('translator', {
+                '_bdd': old if stale else None, 'parser': lr})
+
+            def parse(m, call, args, kw):
+                seen.append(me.attrs.get('_bdd'))
+                if fails:
+                    raise interp.Raised('ValueError')
+                return 42
+
+            def restart(m, call, args, kw):
+                restarted.append(True)
+                return None
+            stubs = ClassStubs(P, 'dd._parser._Translator', extra={
+                'parse': parse, 'restart': restart,
+                'super': lambda m, c, a, k: interp.Sym('super')},
+                skip={'parse'})
+            env = {'self': me, prm[0]: 'x /\\ y', prm[1]: new}
+            what = ('the translator ' + (
+                'still bound to the manager of an earlier call that '
+                'ended with an exception' if stale else 'in its clean '
+                'state') + ', the parser ' + (
+                    'raising ValueError' if fails else 'succeeding'))
+            try:
+                out, m = interp.run_function(f.node, env, stubs, resolver)
+            except interp.Unknown as e:
+                R.undecided('R-PAIR', f.qualname, 'translator model',
+                            str(e))
+                return
+            if len(seen) != 1:
+                problems.setdefault('parser-unbound', (
+                    f'{what}: the inherited parser ran {len(seen)} '
+                    'time(s)'))
+                continue
+            if seen[0] is not new:
+                problems.setdefault(
+                    'parser-stale-state' if seen[0] is old
+                    else 'parser-unbound', (
+                        f'{what}: the grammar actions ran with '
+                        f'`self._bdd` = {seen[0]!r}, not with the manager '
+                        'given to this call: nodes are built in (or '
+                        'refused for) the wrong manager'))
+                continue
+            if fails:
+                if out[0] != 'raise':
+                    problems.setdefault('parser-swallows', (
+                        f'{what}: parse() returns {out[1]!r} instead of '
+                        'raising'))
+                continue
+            if out != ('return', 42):
+                problems.setdefault('parser-result', (
+                    f'{what}: parse() gives {out[0]} {out[1]!r}, not the '
+                    'result of the parser'))
+            if me.attrs.get('_bdd') is not None or not restarted:
+                problems.setdefault('parser-stack', (
+                    f'{what}: after the parse the translator keeps '
+                    + ('the manager' if me.attrs.get('_bdd') is not None
+                       else 'the LR stacks of the formula')
+                    + ': the cached translator holds references to it '
+                    'until the next formula'))
+    keys = {'parser-stack': '_reset_state', 'parser-unbound': '_bdd',
+            'parser-stale-state': '_bdd', 'parser-swallows': 'parse',
+            'parser-result': 'parse'}
+    for sub, msg in sorted(problems.items()):
+        R.violation('R-PAIR', sub, f.qualname, keys[sub], msg,
+                    unit=f.unit.rel, line=f.lineno)
+    if not problems:
+        R.holds('R-PAIR', f.qualname,
+                f'translator model ({n} runs): the grammar runs with the '
+                'manager of this call whatever an earlier call left '
+                'behind; manager dropped and LR stacks restarted after a '
+                'successful parse; result and exceptions passed on')
